@@ -255,6 +255,10 @@ func cmdExec1(args []string) int {
 		fmt.Fprintln(os.Stderr, "exec1: bad scenario:", err)
 		return 2
 	}
+	for _, pre := range sc.Prelude {
+		// earlier scenarios of the same process: executed for the state they leave behind
+		safeExec(c, pre, NewStats())
+	}
 	st := NewStats()
 	v, harness := safeExec(c, &sc, st)
 	out, _ := json.Marshal(exec1Result{Violation: v, Harness: harness, Hash: st.Hash.Sum(), Events: st.Events})
@@ -462,6 +466,18 @@ func cmdRun(args []string) int {
 	}
 	if first != nil {
 		sc := genScenario(c, seed, first.idx, *tier)
+		processHistory = func() []*Scenario {
+			// the scenarios the same worker process executed before this one: same residue class of indices
+			var idxs []int
+			for j := first.idx - virt; j >= 0 && len(idxs) < 1500; j -= virt {
+				idxs = append(idxs, j)
+			}
+			var pre []*Scenario
+			for k := len(idxs) - 1; k >= 0; k-- {
+				pre = append(pre, genScenario(c, seed, idxs[k], *tier))
+			}
+			return pre
+		}
 		return reportViolation(c, sc, first.v, first.hang, *tier, seed, agg, len(distinct), wall, *noEvidence)
 	}
 	// required faults / probes
@@ -533,6 +549,52 @@ func execLimit(id string) time.Duration {
 	return 300 * time.Second
 }
 
+// processHistory returns the scenarios that ran before the violating one in its worker process.
+var processHistory func() []*Scenario
+
+// withHistory tries to reproduce a violation that does not show in a fresh process by replaying the
+// worker's earlier scenarios first, and shrinks that history (most recent scenarios kept first).
+func withHistory(id string, sc *Scenario, class string) *Scenario {
+	if processHistory == nil {
+		return nil
+	}
+	pre := processHistory()
+	if len(pre) == 0 {
+		return nil
+	}
+	try := func(p []*Scenario) bool {
+		cand := sc.Clone()
+		cand.Prelude = p
+		v, harness := execFresh(id, cand, 10*time.Minute)
+		return harness == "" && v != nil && v.Class == class
+	}
+	if !try(pre) {
+		return nil
+	}
+	// shrink: suffixes first (state is usually left by a recent scenario), then drop chunks
+	for len(pre) > 1 {
+		half := pre[len(pre)/2:]
+		if try(half) {
+			pre = half
+			continue
+		}
+		break
+	}
+	for chunk := len(pre) / 2; chunk >= 1; chunk /= 2 {
+		for i := 0; i+chunk <= len(pre) && len(pre) > 1; {
+			cand := append(append([]*Scenario(nil), pre[:i]...), pre[i+chunk:]...)
+			if len(cand) > 0 && try(cand) {
+				pre = cand
+			} else {
+				i += chunk
+			}
+		}
+	}
+	out := sc.Clone()
+	out.Prelude = pre
+	return out
+}
+
 func reportViolation(c Check, sc *Scenario, v *Violation, hang bool, tier string, seed uint64, agg workerResult, distinct int, wall float64, noEvidence bool) int {
 	id := c.ID()
 	if hang {
@@ -553,6 +615,16 @@ func reportViolation(c Check, sc *Scenario, v *Violation, hang bool, tier string
 		v = v2
 	}
 	fmt.Printf("violation in scenario %d (seed %d): %s\n", sc.Index, sc.Seed, v)
+	if v.Class != "data-race" && v.Class != "hang" {
+		// does it show in a fresh process at all? if not, it may need what earlier scenarios of the
+		// same worker left behind in the process; the scenario is then minimised with that history
+		if v0, harness := execFresh(id, sc, execLimit(id)); harness == "" && (v0 == nil || v0.Class != v.Class) {
+			if h := withHistory(id, sc, v.Class); h != nil {
+				fmt.Printf("the violation needs process-lifetime state: it reproduces in a fresh process after %d earlier scenario(s) of the same worker\n", len(h.Prelude))
+				sc = h
+			}
+		}
+	}
 	min := minimise(c, sc, v)
 	// confirm in a fresh process
 	v3, harness := execFresh(id, min, execLimit(id))
@@ -563,11 +635,19 @@ func reportViolation(c Check, sc *Scenario, v *Violation, hang bool, tier string
 	if v3 == nil || v3.Class != v.Class {
 		// fall back to the unminimised scenario
 		v3, _ = execFresh(id, sc, execLimit(id))
+		min = sc
 		if v3 == nil {
-			fmt.Println("MACHINERY: violation does not reproduce in a fresh process (nondeterminism in the machinery)")
+			// not reproducible alone: does it need what earlier scenarios left behind in the process?
+			if h := withHistory(id, sc, v.Class); h != nil {
+				min = h
+				v3, _ = execFresh(id, min, 10*time.Minute)
+				fmt.Printf("the violation needs process-lifetime state: it reproduces in a fresh process after %d earlier scenario(s) of the same worker\n", len(min.Prelude))
+			}
+		}
+		if v3 == nil {
+			fmt.Println("MACHINERY: violation does not reproduce in a fresh process, alone or after the worker's earlier scenarios (nondeterminism in the machinery)")
 			return 2
 		}
-		min = sc
 	}
 	min.Expect = &Expect{Class: v3.Class, Task: v3.Task, Op: v3.Op, Sig: v3.Sig}
 	min.Detail = v3.Detail
